@@ -2,9 +2,9 @@ CONSTANTS
   K = 2
   EchoBuf = 1
   NIns = {0, 6}
-  NOuts = {0, 3}
+  NOuts = {3}
   NErrs = {3}
-  WChunks = {0, 2}
+  WChunks = {0}
   RChunks = {1}
   IoStatuses = {"c3"}
   Codes = {"c0"}
